@@ -1,528 +1,5 @@
-//! C01 / C02 crash harness.  Runs a workload (DDL, autocommit DML, small transactions,
-//! checkpoints, reopen) on a real `turdb::Database` in a scratch directory with the write-ahead
-//! log on and `synchronous=FULL`.  The `io_event` hook of /repo (cfg kahflane_turdb_verif)
-//! reports every operation that reaches the operating system; at every such event and after
-//! every statement two crash images are materialised
-//!   KILL  = a plain copy of the database directory at that instant (MAP_SHARED stores and
-//!           completed write(2) calls survive a process kill; BufWriter contents do not);
-//!   POWER = per file the content it had at its last completed fsync / sync_data / msync
-//!           (a shadow directory refreshed at those events; a file that was never synced is
-//!           absent; unlink is taken as durable at once),
-//! each image is re-opened with the real `Database::open`, every table is scanned and probed
-//! by key, and the recovered table / index files are read back page by page.
-//! What was observed (physical trace per statement, crash observations) is written as one Coq
-//! term per workload for coq/Corr/C01.v to judge.
-//!   c01 gen    --seed S --tier T --out DIR [--lines FILE]
-//!   c01 search --seed S --budget N --out FILE      (oracle only, Rust port of the row-level spec)
-//!   c01 trace  <replay line>                        (debug: print everything that was observed)
-use parking_lot::Mutex;
-use std::collections::{BTreeMap, HashMap};
-use std::panic::AssertUnwindSafe;
-use std::path::{Path, PathBuf};
-use std::sync::Arc;
-use tvh::*;
-use turdb::{Database, OwnedValue};
-
-const PAGE: usize = 16384;
-const FRAME: usize = 32 + PAGE;
-
-// ------------------------------------------------------------------ workload
-#[derive(Clone, Debug, PartialEq)]
-enum Step {
-    CreateTable(u32),
-    Ins(u32, i64, i64),
-    Upd(u32, i64, i64),
-    Del(u32, i64),
-    Begin,
-    Commit,
-    PragmaCkpt,     // PRAGMA wal_checkpoint  (SharedDatabase::checkpoint)
-    ApiCkpt,        // Database::checkpoint() (lifecycle.rs)
-    Reopen,         // drop the handle (clean shutdown), Database::open, PRAGMA wal=ON, synchronous
-}
-
-#[derive(Clone, Debug, PartialEq)]
-struct Workload { pad: usize, steps: Vec<Step>, only: Option<(usize, usize, char)> }
-
-fn step_str(s: &Step) -> String {
-    match s {
-        Step::CreateTable(t) => format!("ct{}", t),
-        Step::Ins(t, k, v) => format!("i{}.{}.{}", t, k, v),
-        Step::Upd(t, k, v) => format!("u{}.{}.{}", t, k, v),
-        Step::Del(t, k) => format!("d{}.{}", t, k),
-        Step::Begin => "b".into(),
-        Step::Commit => "c".into(),
-        Step::PragmaCkpt => "k".into(),
-        Step::ApiCkpt => "a".into(),
-        Step::Reopen => "x".into(),
-    }
-}
-fn parse_step(s: &str) -> Option<Step> {
-    let nums = |r: &str| -> Option<Vec<i64>> { r.split('.').map(|x| x.parse::<i64>().ok()).collect() };
-    if let Some(r) = s.strip_prefix("ct") { return Some(Step::CreateTable(r.parse().ok()?)); }
-    match s {
-        "b" => return Some(Step::Begin),
-        "c" => return Some(Step::Commit),
-        "k" => return Some(Step::PragmaCkpt),
-        "a" => return Some(Step::ApiCkpt),
-        "x" => return Some(Step::Reopen),
-        _ => {}
-    }
-    let (h, r) = s.split_at(1.min(s.len()));
-    let v = nums(r)?;
-    match (h, v.len()) {
-        ("i", 3) => Some(Step::Ins(v[0] as u32, v[1], v[2])),
-        ("u", 3) => Some(Step::Upd(v[0] as u32, v[1], v[2])),
-        ("d", 2) => Some(Step::Del(v[0] as u32, v[1])),
-        _ => None,
-    }
-}
-impl Workload {
-    fn line(&self) -> String {
-        let mut s = format!("pad={} steps={}", self.pad, self.steps.iter().map(step_str).collect::<Vec<_>>().join(","));
-        if let Some((i, j, m)) = self.only { s.push_str(&format!(" at={}.{}.{}", i, j, m)); }
-        s
-    }
-    fn parse(l: &str) -> Option<Workload> {
-        let mut w = Workload { pad: 0, steps: vec![], only: None };
-        for tok in l.split_whitespace() {
-            if let Some(r) = tok.strip_prefix("pad=") { w.pad = r.parse().ok()?; }
-            else if let Some(r) = tok.strip_prefix("steps=") {
-                for s in r.split(',') { if !s.is_empty() { w.steps.push(parse_step(s)?); } }
-            } else if let Some(r) = tok.strip_prefix("at=") {
-                let v: Vec<&str> = r.split('.').collect();
-                if v.len() != 3 { return None; }
-                w.only = Some((v[0].parse().ok()?, v[1].parse().ok()?, v[2].chars().next()?));
-            } else { return None; }
-        }
-        Some(w)
-    }
-    fn sql(&self, s: &Step) -> Option<String> {
-        let padv = |k: i64, v: i64| -> String {
-            if self.pad == 0 { String::new() } else {
-                let c = (b'a' + ((k * 7 + v) .rem_euclid(26)) as u8) as char;
-                format!(", '{}'", std::iter::repeat(c).take(self.pad).collect::<String>())
-            }
-        };
-        match s {
-            Step::CreateTable(t) => Some(if self.pad == 0 { format!("CREATE TABLE t{} (id INT PRIMARY KEY, v INT)", t) }
-                                         else { format!("CREATE TABLE t{} (id INT PRIMARY KEY, v INT, p TEXT)", t) }),
-            Step::Ins(t, k, v) => Some(format!("INSERT INTO t{} VALUES ({}, {}{})", t, k, v, padv(*k, *v))),
-            Step::Upd(t, k, v) => Some(format!("UPDATE t{} SET v = {} WHERE id = {}", t, v, k)),
-            Step::Del(t, k) => Some(format!("DELETE FROM t{} WHERE id = {}", t, k)),
-            Step::Begin => Some("BEGIN".into()),
-            Step::Commit => Some("COMMIT".into()),
-            Step::PragmaCkpt => Some("PRAGMA wal_checkpoint".into()),
-            Step::ApiCkpt | Step::Reopen => None,
-        }
-    }
-}
-
-// ------------------------------------------------------------------ row-level reference state
-type Tables = BTreeMap<u32, BTreeMap<i64, i64>>;
-fn apply_logical(st: &mut Tables, s: &Step) {
-    match s {
-        Step::CreateTable(t) => { st.entry(*t).or_default(); }
-        Step::Ins(t, k, v) => { if let Some(m) = st.get_mut(t) { m.entry(*k).or_insert(*v); } }
-        Step::Upd(t, k, v) => { if let Some(m) = st.get_mut(t) { if let Some(x) = m.get_mut(k) { *x = *v; } } }
-        Step::Del(t, k) => { if let Some(m) = st.get_mut(t) { m.remove(k); } }
-        _ => {}
-    }
-}
-
-// ------------------------------------------------------------------ observation machinery
-fn fnv64(b: &[u8]) -> u64 {
-    let mut h: u64 = 0xcbf29ce484222325;
-    for c in b.chunks(8) {
-        let mut x = [0u8; 8];
-        x[..c.len()].copy_from_slice(c);
-        h ^= u64::from_le_bytes(x);
-        h = h.wrapping_mul(0x100000001b3);
-        h ^= h >> 29;
-    }
-    h
-}
-
-/// file key: (1, t) = table file of t<t>; (2, t) = primary-key index file of t<t>
-type FileKey = (u8, u32);
-fn file_key(rel: &str) -> Option<FileKey> {
-    let name = rel.strip_prefix("root/")?;
-    if let Some(t) = name.strip_suffix(".tbd") { return t.strip_prefix('t')?.parse().ok().map(|n| (1u8, n)); }
-    if let Some(t) = name.strip_suffix("_id_pkey.idx") { return t.strip_prefix('t')?.parse().ok().map(|n| (2u8, n)); }
-    None
-}
-fn fid(k: FileKey) -> i64 { if k.0 == 1 { k.1 as i64 } else { 100 + k.1 as i64 } }
-
-#[derive(Clone, Debug, PartialEq)]
-enum Phys {
-    Store(i64, i64, i64),               // file, page, image
-    Io(u32, i64, Vec<(i64, i64, i64)>), // kind, role (file id / wal sequence / 0), frames that reached the WAL file (kind 1)
-}
-
-#[derive(Clone, Debug, PartialEq)]
-struct Obs {
-    step: usize, j: usize, mode: char,
-    open: i64,                                  // 0 ok, 1 error, 2 panic
-    tables: Vec<(u32, Option<Vec<(i64, i64)>>)>,// per table of the universe: None = unreadable / missing
-    probe_ok: bool,                             // key probes agree with the scan
-    pages: Vec<(i64, i64, i64)>,                // recovered (file, page, image); image -1 = not an image seen before
-    note: String,
-}
-
-struct Ctx {
-    db: PathBuf, shadow: PathBuf, eval: PathBuf,
-    suspended: bool,
-    img: HashMap<u64, i64>,
-    pages: BTreeMap<FileKey, Vec<u64>>,         // live page hashes at the last observation
-    domain: BTreeMap<(i64, i64), ()>,
-    wal_seen: HashMap<PathBuf, u64>,
-    table_ids: HashMap<u64, u32>,               // WAL file_id -> t<n>
-    phys: Vec<Phys>,
-    step: usize, j: usize,
-    universe: Vec<u32>, keys: Vec<i64>,
-    obs: Vec<Obs>,
-    cache: HashMap<u64, (i64, Vec<(u32, Option<Vec<(i64, i64)>>)>, bool, Vec<(i64, i64, i64)>, String)>,
-    only: Option<(usize, usize, char)>,
-    evals: u64, cache_hits: u64,
-    in_workload: bool,
-}
-
-static CTX: Mutex<Option<Ctx>> = Mutex::new(None);
-
-fn walk(dir: &Path, base: &Path, out: &mut Vec<(String, PathBuf)>) {
-    if let Ok(rd) = std::fs::read_dir(dir) {
-        let mut es: Vec<_> = rd.flatten().collect();
-        es.sort_by_key(|e| e.file_name());
-        for e in es {
-            let p = e.path();
-            if p.is_dir() { walk(&p, base, out); }
-            else { out.push((p.strip_prefix(base).unwrap().to_string_lossy().to_string(), p)); }
-        }
-    }
-}
-fn copy_tree(a: &Path, b: &Path) {
-    let _ = std::fs::remove_dir_all(b);
-    std::fs::create_dir_all(b).unwrap();
-    let mut fs = vec![];
-    walk(a, a, &mut fs);
-    // directories (also empty ones)
-    fn dirs(a: &Path, b: &Path) {
-        if let Ok(rd) = std::fs::read_dir(a) { for e in rd.flatten() { let p = e.path(); if p.is_dir() { let q = b.join(e.file_name()); let _ = std::fs::create_dir_all(&q); dirs(&p, &q); } } }
-    }
-    dirs(a, b);
-    for (rel, p) in fs { let q = b.join(&rel); if let Some(d) = q.parent() { let _ = std::fs::create_dir_all(d); } std::fs::copy(&p, &q).unwrap(); }
-}
-fn fingerprint(dir: &Path) -> u64 {
-    let mut fs = vec![];
-    walk(dir, dir, &mut fs);
-    let mut h: u64 = 0x1234_5678_9abc_def0;
-    for (rel, p) in fs {
-        h = h.wrapping_mul(0x100000001b3) ^ fnv64(rel.as_bytes());
-        let b = std::fs::read(&p).unwrap_or_default();
-        h = h.wrapping_mul(0x100000001b3) ^ fnv64(&b) ^ (b.len() as u64);
-    }
-    h
-}
-
-impl Ctx {
-    fn img_id(&mut self, page: &[u8], assign: bool) -> i64 {
-        if page.iter().all(|b| *b == 0) { return 0; }
-        let h = fnv64(page);
-        if let Some(i) = self.img.get(&h) { return *i; }
-        if !assign { return -1; }
-        let i = self.img.len() as i64 + 1;
-        self.img.insert(h, i);
-        i
-    }
-    /// in-place page writes since the last observation
-    fn diff_stores(&mut self) {
-        let mut fs = vec![];
-        walk(&self.db.clone(), &self.db.clone(), &mut fs);
-        for (rel, p) in fs {
-            let Some(k) = file_key(&rel) else { continue };
-            let b = std::fs::read(&p).unwrap_or_default();
-            if k.0 == 1 && b.len() >= 24 {
-                let id = u64::from_le_bytes(b[16..24].try_into().unwrap());
-                if id != 0 { self.table_ids.insert(id, k.1); }
-            }
-            let n = b.len() / PAGE;
-            let old = self.pages.get(&k).cloned().unwrap_or_default();
-            let mut new = Vec::with_capacity(n);
-            for i in 0..n {
-                let pg = &b[i * PAGE..(i + 1) * PAGE];
-                let h = fnv64(pg);
-                new.push(h);
-                let zero_new = i >= old.len();
-                if (zero_new && !pg.iter().all(|x| *x == 0)) || (!zero_new && old[i] != h) {
-                    let id = self.img_id(pg, true);
-                    self.phys.push(Phys::Store(fid(k), i as i64, id));
-                    self.domain.insert((fid(k), i as i64), ());
-                }
-            }
-            self.pages.insert(k, new);
-        }
-    }
-    fn rel(&self, p: &Path) -> String { p.strip_prefix(&self.db).map(|x| x.to_string_lossy().to_string()).unwrap_or_default() }
-    fn ino_path(&self, ino: u64) -> Option<PathBuf> {
-        use std::os::unix::fs::MetadataExt;
-        let mut fs = vec![];
-        walk(&self.db, &self.db, &mut fs);
-        fs.into_iter().find(|(_, p)| p.metadata().map(|m| m.ino() == ino).unwrap_or(false)).map(|(_, p)| p)
-    }
-    fn shadow_refresh(&self, p: &Path) {
-        let rel = self.rel(p);
-        if rel.is_empty() { return; }
-        let q = self.shadow.join(&rel);
-        if let Some(d) = q.parent() { let _ = std::fs::create_dir_all(d); }
-        let _ = std::fs::copy(p, &q);
-    }
-    fn role(&self, rel: &str) -> i64 {
-        if let Some(k) = file_key(rel) { return fid(k); }
-        if let Some(s) = rel.strip_prefix("wal/wal.") { return 1000 + s.parse::<i64>().unwrap_or(0); }
-        if rel == "turdb.catalog" { return 2000; }
-        if rel == "turdb.meta" { return 2001; }
-        if rel.starts_with("turdb_catalog/") { return 2002; }
-        2003
-    }
-    fn on_io(&mut self, kind: u32, path: &Path, a: u64, _b: u64) {
-        self.diff_stores();
-        let p: PathBuf = if kind == 6 || kind == 9 { self.ino_path(a).unwrap_or_default() } else { path.to_path_buf() };
-        let rel = self.rel(&p);
-        let role = self.role(&rel);
-        let mut frames = vec![];
-        match kind {
-            1 => {
-                let seen = *self.wal_seen.get(&p).unwrap_or(&0);
-                let b = std::fs::read(&p).unwrap_or_default();
-                let mut off = seen as usize;
-                while off + FRAME <= b.len() {
-                    let file_id = u64::from_le_bytes(b[off..off + 8].try_into().unwrap());
-                    let page_no = u32::from_le_bytes(b[off + 8..off + 12].try_into().unwrap());
-                    let pg = b[off + 32..off + FRAME].to_vec();
-                    let id = self.img_id(&pg, true);
-                    let t = self.table_ids.get(&file_id).map(|t| *t as i64).unwrap_or(-(file_id as i64));
-                    frames.push((t, page_no as i64, id));
-                    off += FRAME;
-                }
-                self.wal_seen.insert(p.clone(), off as u64);
-            }
-            2 | 6 => self.shadow_refresh(&p),
-            3 => { self.wal_seen.insert(p.clone(), a); }
-            4 => { if rel.starts_with("wal/") { self.wal_seen.insert(p.clone(), 0); } }
-            5 => { let _ = std::fs::remove_file(self.shadow.join(&rel)); self.wal_seen.remove(&p); }
-            _ => {}
-        }
-        // system tables and the meta file are not part of the protocol model
-        if role == 2002 || role == 2003 { return; }
-        if role == 2001 && kind == 6 { return; }
-        self.phys.push(Phys::Io(kind, role, frames));
-        self.j += 1;
-        self.crash_point();
-    }
-    fn crash_point(&mut self) {
-        if !self.in_workload { return; }
-        for mode in ['K', 'P'] {
-            if let Some((i, j, m)) = self.only { if (i, j, m) != (self.step, self.j, mode) { continue; } }
-            let src = if mode == 'K' { self.db.clone() } else { self.shadow.clone() };
-            let fp = fingerprint(&src);
-            let r = if let Some(r) = self.cache.get(&fp) { self.cache_hits += 1; r.clone() } else {
-                let r = self.evaluate(&src);
-                self.cache.insert(fp, r.clone());
-                r
-            };
-            self.obs.push(Obs { step: self.step, j: self.j, mode, open: r.0, tables: r.1, probe_ok: r.2, pages: r.3, note: r.4 });
-        }
-    }
-    fn evaluate(&mut self, src: &Path) -> (i64, Vec<(u32, Option<Vec<(i64, i64)>>)>, bool, Vec<(i64, i64, i64)>, String) {
-        self.evals += 1;
-        let dir = self.eval.clone();
-        copy_tree(src, &dir);
-        let universe = self.universe.clone();
-        let keys = self.keys.clone();
-        let d2 = dir.clone();
-        let r = catch(AssertUnwindSafe(move || -> Result<(Vec<(u32, Option<Vec<(i64, i64)>>)>, bool, String, Database), String> {
-            let db = Database::open(&d2).map_err(|e| format!("{:#}", e))?;
-            let mut tabs = vec![];
-            let mut probe_ok = true;
-            let mut note = String::new();
-            for t in &universe {
-                let scan = catch(AssertUnwindSafe(|| db.query(&format!("SELECT id, v FROM t{}", t))));
-                let rows: Option<Vec<(i64, i64)>> = match scan {
-                    Caught::Done(Ok(rs)) => {
-                        let mut v = vec![];
-                        let mut bad = false;
-                        for r in rs { match (r.values.get(0), r.values.get(1)) { (Some(OwnedValue::Int(k)), Some(OwnedValue::Int(x))) => v.push((*k, *x)), _ => bad = true } }
-                        if bad { note.push_str(&format!("t{}:badrow;", t)); None } else { v.sort(); Some(v) }
-                    }
-                    Caught::Done(Err(e)) => { note.push_str(&format!("t{}:{};", t, format!("{:#}", e).chars().take(60).collect::<String>())); None }
-                    Caught::Panicked(m) => { note.push_str(&format!("t{}:panic {};", t, m.chars().take(60).collect::<String>())); None }
-                };
-                if let Some(rows) = &rows {
-                    for k in &keys {
-                        let want: Vec<(i64, i64)> = rows.iter().filter(|r| r.0 == *k).cloned().collect();
-                        let got = catch(AssertUnwindSafe(|| db.query(&format!("SELECT id, v FROM t{} WHERE id = {}", t, k))));
-                        let got: Option<Vec<(i64, i64)>> = match got {
-                            Caught::Done(Ok(rs)) => Some(rs.iter().filter_map(|r| match (r.values.get(0), r.values.get(1)) { (Some(OwnedValue::Int(k)), Some(OwnedValue::Int(x))) => Some((*k, *x)), _ => None }).collect()),
-                            _ => None,
-                        };
-                        if got.as_ref() != Some(&want) { probe_ok = false; note.push_str(&format!("probe t{} id={} scan={:?} probe={:?};", t, k, want, got)); }
-                    }
-                }
-                tabs.push((*t, rows));
-            }
-            Ok((tabs, probe_ok, note, db))
-        }));
-        let out = match r {
-            Caught::Done(Ok((tabs, probe_ok, note, db))) => {
-                // recovered pages, read while the recovering handle is still alive (no clean-shutdown effects yet)
-                let pages = self.read_pages(&dir);
-                let _ = catch(AssertUnwindSafe(move || drop(db)));
-                (0, tabs, probe_ok, pages, note)
-            }
-            Caught::Done(Err(e)) => (1, vec![], true, self.read_pages(&dir), e.chars().take(100).collect()),
-            Caught::Panicked(m) => (2, vec![], true, self.read_pages(&dir), m.chars().take(100).collect()),
-        };
-        let _ = std::fs::remove_dir_all(&dir);
-        out
-    }
-    fn read_pages(&mut self, dir: &Path) -> Vec<(i64, i64, i64)> {
-        let mut out = vec![];
-        let dom: Vec<(i64, i64)> = self.domain.keys().cloned().collect();
-        let mut files: HashMap<i64, Vec<u8>> = HashMap::new();
-        let mut fs = vec![];
-        walk(dir, dir, &mut fs);
-        for (rel, p) in fs { if let Some(k) = file_key(&rel) { files.insert(fid(k), std::fs::read(&p).unwrap_or_default()); } }
-        for (f, pg) in dom {
-            if let Some(b) = files.get(&f) {
-                let o = pg as usize * PAGE;
-                if o + PAGE <= b.len() {
-                    let id = self.img_id(&b[o..o + PAGE].to_vec(), false);
-                    if id != 0 { out.push((f, pg, id)); }
-                }
-            }
-        }
-        out
-    }
-}
-
-fn hook(kind: u32, path: &Path, a: u64, b: u64) {
-    let mut g = CTX.lock();
-    if let Some(c) = g.as_mut() {
-        if c.suspended { return; }
-        c.suspended = true;
-        c.on_io(kind, path, a, b);
-        c.suspended = false;
-    }
-}
-
-fn scratch_root() -> PathBuf {
-    let base = if Path::new("/dev/shm").is_dir() { PathBuf::from("/dev/shm") } else { PathBuf::from("/verif/build/tmp") };
-    base.join(format!("c01-{}", std::process::id()))
-}
-
-#[derive(Clone, Debug)]
-struct StepRec { step: Step, ok: bool, phys: Vec<Phys>, err: String }
-struct RunOut { steps: Vec<StepRec>, obs: Vec<Obs>, evals: u64, cache_hits: u64, setup_err: Option<String> }
-
-fn open_session(db: &Path) -> Result<Database, String> {
-    let d = Database::open(db).map_err(|e| format!("open: {:#}", e))?;
-    d.execute("PRAGMA wal=ON").map_err(|e| format!("pragma wal: {:#}", e))?;
-    d.execute("PRAGMA synchronous=FULL").map_err(|e| format!("pragma sync: {:#}", e))?;
-    Ok(d)
-}
-
-/// run one workload on the real database, crashing it (on copies) everywhere
-fn run_workload(w: &Workload) -> RunOut {
-    let root = scratch_root();
-    let _ = std::fs::remove_dir_all(&root);
-    std::fs::create_dir_all(&root).unwrap();
-    let dbp = root.join("db");
-    let mut universe: Vec<u32> = vec![];
-    let mut keys: Vec<i64> = vec![];
-    for s in &w.steps {
-        match s {
-            Step::CreateTable(t) => if !universe.contains(t) { universe.push(*t) },
-            Step::Ins(_, k, _) | Step::Upd(_, k, _) | Step::Del(_, k) => if !keys.contains(k) { keys.push(*k) },
-            _ => {}
-        }
-    }
-    keys.sort();
-    // baseline: a database created and cleanly shut down earlier (everything synced)
-    turdb::verif_hooks::set_io_hook(None);
-    let setup = catch(AssertUnwindSafe(|| -> Result<(), String> {
-        let d = Database::create(&dbp).map_err(|e| format!("create: {:#}", e))?;
-        drop(d);
-        Ok(())
-    }));
-    let mut out = RunOut { steps: vec![], obs: vec![], evals: 0, cache_hits: 0, setup_err: None };
-    match setup { Caught::Done(Ok(())) => {}, Caught::Done(Err(e)) => { out.setup_err = Some(e); return out; }, Caught::Panicked(m) => { out.setup_err = Some(m); return out; } }
-    copy_tree(&dbp, &root.join("shadow"));
-    *CTX.lock() = Some(Ctx { db: dbp.clone(), shadow: root.join("shadow"), eval: root.join("eval"), suspended: false, img: HashMap::new(),
-        pages: BTreeMap::new(), domain: BTreeMap::new(), wal_seen: HashMap::new(), table_ids: HashMap::new(), phys: vec![], step: 0, j: 0,
-        universe, keys, obs: vec![], cache: HashMap::new(), only: w.only, evals: 0, cache_hits: 0, in_workload: false });
-    turdb::verif_hooks::set_io_hook(Some(Arc::new(hook)));
-    let mut db: Option<Database> = match catch(AssertUnwindSafe(|| open_session(&dbp))) {
-        Caught::Done(Ok(d)) => Some(d),
-        Caught::Done(Err(e)) => { out.setup_err = Some(e); None }
-        Caught::Panicked(m) => { out.setup_err = Some(m); None }
-    };
-    if db.is_some() {
-        { let mut g = CTX.lock(); let c = g.as_mut().unwrap(); c.diff_stores(); c.phys.clear(); c.in_workload = true; }
-        for (i, s) in w.steps.iter().enumerate() {
-            { let mut g = CTX.lock(); let c = g.as_mut().unwrap(); c.step = i; c.j = 0; c.phys.clear(); }
-            let r: Caught<Result<(), String>> = match s {
-                Step::Reopen => {
-                    let old = db.take();
-                    let r = catch(AssertUnwindSafe(|| { drop(old); open_session(&dbp) }));
-                    match r { Caught::Done(Ok(d)) => { db = Some(d); Caught::Done(Ok(())) } Caught::Done(Err(e)) => Caught::Done(Err(e)), Caught::Panicked(m) => Caught::Panicked(m) }
-                }
-                Step::ApiCkpt => { let d = db.as_ref().unwrap(); catch(AssertUnwindSafe(|| d.checkpoint().map(|_| ()).map_err(|e| format!("{:#}", e)))) }
-                _ => { let sql = w.sql(s).unwrap(); let d = db.as_ref().unwrap(); catch(AssertUnwindSafe(|| d.execute(&sql).map(|_| ()).map_err(|e| format!("{:#}", e)))) }
-            };
-            let (ok, err) = match r { Caught::Done(Ok(())) => (true, String::new()), Caught::Done(Err(e)) => (false, e), Caught::Panicked(m) => (false, format!("panic: {}", m)) };
-            let mut g = CTX.lock();
-            let c = g.as_mut().unwrap();
-            c.suspended = true;
-            c.diff_stores();
-            let phys = std::mem::take(&mut c.phys);
-            out.steps.push(StepRec { step: s.clone(), ok, phys, err });
-            if !ok || db.is_none() { c.suspended = false; break; }
-            // crash point after the acknowledgement
-            c.j = usize::MAX;
-            c.crash_point();
-            c.suspended = false;
-        }
-    }
-    turdb::verif_hooks::set_io_hook(None);
-    let c = CTX.lock().take().unwrap();
-    let _ = catch(AssertUnwindSafe(move || drop(db)));
-    out.obs = c.obs; out.evals = c.evals; out.cache_hits = c.cache_hits;
-    let _ = std::fs::remove_dir_all(&root);
-    out
-}
-
-fn main() {
-    let a = Args::parse();
-    match a.mode.as_str() {
-        "trace" => trace(&a),
-        _ => { eprintln!("c01: unknown mode"); std::process::exit(2); }
-    }
-}
-
-fn trace(a: &Args) {
-    let line = a.rest.join(" ");
-    let w = Workload::parse(&line).expect("bad line");
-    let t0 = std::time::Instant::now();
-    let r = run_workload(&w);
-    println!("line: {}", w.line());
-    if let Some(e) = &r.setup_err { println!("SETUP ERROR {}", e); }
-    let mut st: Tables = BTreeMap::new();
-    for (i, s) in r.steps.iter().enumerate() {
-        println!("step {} {:?} ok={} {}", i, s.step, s.ok, s.err);
-        for p in &s.phys { println!("    {:?}", p); }
-        if s.ok { apply_logical(&mut st, &s.step); }
-        for o in r.obs.iter().filter(|o| o.step == i) {
-            println!("      obs j={} {} open={} tables={:?} probe_ok={} pages={:?} {}", if o.j == usize::MAX { -1 } else { o.j as i64 }, o.mode, o.open, o.tables, o.probe_ok, o.pages, o.note);
-        }
-    }
-    println!("evals={} cache_hits={} obs={} {:?}", r.evals, r.cache_hits, r.obs.len(), t0.elapsed());
-}
+//! C01 - acknowledged writes survive a crash.  The crash harness is shared with C02
+//! (crash_common/mod.rs): gen / search / trace.
+#[path = "crash_common/mod.rs"]
+mod crash_common;
+fn main() { crash_common::main_for("C01"); }
